@@ -40,10 +40,10 @@ CORPORA = {
                    family="limits", trace="LimitsTrace.tla", tracecfg="LimitsTrace.cfg", harness_workers=1),
     "schema": dict(gen="MCStream.tla", cfg={"quick": "stream_matrix_quick.cfg", "thorough": "stream_matrix_thorough.cfg"},
                    family="stream", trace="StreamTrace.tla", tracecfg="StreamTrace.cfg",
-                   variants=["noresolver", "reparsed", "dynext", "global"]),
+                   variants=["noresolver", "reparsed", "dynext", "global", "shadowed"]),
     "schema_errors": dict(gen="MCStream.tla", cfg={"quick": "stream_errors_quick.cfg", "thorough": "stream_errors_thorough.cfg"},
                    family="stream", trace="StreamTrace.tla", tracecfg="StreamTrace.cfg",
-                   variants=["noresolver", "reparsed", "dynext", "global"]),
+                   variants=["noresolver", "reparsed", "dynext", "global", "shadowed"]),
     "stream_headers": dict(gen="MCStream.tla", cfg={"quick": "stream_headers_quick.cfg", "thorough": "stream_headers_thorough.cfg"},
                            family="stream", trace="StreamTrace.tla", tracecfg="StreamTrace.cfg"),
 }
